@@ -34,10 +34,11 @@ def Shrinks (npats : Nat) (pat : PatFn) : Prop :=
   ∀ p l r, p < npats → pat p l = some r → r.groups ≠ 1 →
     r.left.length < l.length ∧ r.right.length < l.length
 
-/-- a pair of lines is excused -/
+/-- a pair of lines is excused: after the stripping requested they are equal, or the reference line contains an
+    ignore-substring, or they differ only in parts matched by an ignore-pattern -/
 def LineOK (o : Opts) (pat : PatFn) (a e : Line) : Prop :=
-  normalize o a = normalize o e ∨ (∃ s ∈ o.ignoreSubstrings, contains e s = true) ∨
-  PatEquiv o.npats pat a e
+  normalize o a = normalize o e ∨ (∃ s ∈ o.ignoreSubstrings, contains (normalize o e) s = true) ∨
+  PatEquiv o.npats pat (normalize o a) (normalize o e)
 
 /-- the executable form of `LineOK` used to state the rule -/
 def lineOKb (o : Opts) (pat : PatFn) (a e : Line) : Bool :=
